@@ -3,6 +3,7 @@ schedules) + schedule correspondence: every maximal schedule of the model for sm
 replayed on the real server with its threads paused at the hook's schedule points + uncontrolled
 bursts of notifications and requests."""
 import json
+import os
 
 from .. import core
 
@@ -80,7 +81,7 @@ def run(ck):
         if len(scheds) > cap:
             scheds = rng.sample(scheds, cap)
         for i, sc in enumerate(scheds):
-            lines.append("sched " + json.dumps({"dir": "%s/tmp/sched%d" % (core.BUILD, len(lines) % 64), "disk": {}, "jobs": jobs,
+            lines.append("sched " + json.dumps({"dir": "%s/tmp/sched%d" % (core.BUILD, len(lines)), "disk": {}, "jobs": jobs,
                                                 "schedule": sc, "step_timeout_ms": 2000}))
             meta.append((jobs, sc))
     # blocked-step probe: the second edit must wait for the first edit's diagnostics task
@@ -131,6 +132,25 @@ def run(ck):
             ck.fail(["C08", "burst", core.sig_hash(b)], "a burst of notifications and requests leaves requests unanswered: %s" % d.get("unanswered"),
                     {"cmd": b[:3000]}, {"timeout": d.get("timeout"), "unanswered": d.get("unanswered")}, "every request answered")
     ck.count("bursts", len(bursts), {core.sig_hash(b) for b in bursts}, sample={"burst": bursts[0][:300]})
+    # the repository's own binary (includes main.rs' service stack), worst case: one CPU
+    from .. import stdio_driver
+    ok, out, binary = core.build_lsp_bin()
+    if not ok:
+        ck.broke("lsp-binary-build", {"error": out[-1500:]})
+    else:
+        with open(os.path.join(core.REPO, "crates", "lsp", "src", "main.rs")) as f:
+            main_rs = f.read()
+        stack = [l.strip() for l in main_rs.splitlines() if ".layer(" in l]
+        if any("ConcurrencyLayer" in l for l in stack):
+            ck.notes.append("main.rs installs a ConcurrencyLayer; the in-process harness (srv/sched) does not")
+        cfgs = [(2, "0"), (20, "0"), (200, "0,1"), (300, None)] if quick else [(2, "0"), (5, "0"), (20, "0"), (100, "0"), (200, "0,1"), (400, "0,1"), (1000, None)]
+        for n, cpus in cfgs:
+            got = stdio_driver.burst(binary, n, cpus)
+            if got < n:
+                ck.fail(["C08", "binary-burst", "n=%d cpus=%s" % (n, cpus)],
+                        "the server binary answers only %d of %d back-to-back requests (cpus=%s)" % (got, n, cpus),
+                        {"binary_burst": n, "cpus": cpus}, got, n)
+        ck.count("binary_bursts", len(cfgs), {str(c) for c in cfgs}, sample={"requests": cfgs[0][0], "cpus": cfgs[0][1]}, service_stack=stack)
     return ck.finish(extra_cov={"traces_validated_against_impl": len(meta), "model_schedules_enumerated": nstates}, **FINISH)
 
 
